@@ -1,0 +1,11 @@
+//go:build !verif
+
+// Package vhook holds verification hooks. Without the "verif" build tag every
+// function here is an empty, inlinable no-op.
+package vhook
+
+// FS is called after a file-system mutation succeeded.
+func FS(kind, path string, n int64) {}
+
+// Pause marks a point where a test schedule may hold a goroutine.
+func Pause(point string) {}
